@@ -437,6 +437,44 @@ def place_root(n):
             return None, list(reversed(fields))
 
 
+def place_root_lid(n):
+    """like place_root, but identifies the root local by its HirId-local id: (lid or None, [field path])"""
+    fields = []
+    while True:
+        n = strip(n)
+        k = n.get("k")
+        if k == "Field":
+            fields.append(n["f"])
+            n = n["e"]
+        elif k == "Index":
+            fields.append("[]")
+            n = n["l"]
+        elif k == "Path" and n.get("res") == "local":
+            return n.get("lid"), list(reversed(fields))
+        elif k == "MethodCall":
+            fields.append("." + n["m"] + "()")
+            n = n["recv"]
+        elif k == "Match" and n.get("src") == "TryDesugar":
+            inner = n["e"]
+            if inner.get("k") == "Call" and inner["args"]:
+                n = inner["args"][0]
+                fields.append("?")
+            else:
+                return None, list(reversed(fields))
+        else:
+            return None, list(reversed(fields))
+
+
+def param_lids(fn):
+    """{param name: (lid, type)} for simple binding parameters"""
+    out = {}
+    for prm in fn.params:
+        p = prm.get("pat") or prm
+        if p.get("k") == "Binding" or "lid" in p:
+            out[p.get("name") or prm.get("name")] = (p.get("lid"), prm.get("ty") or p.get("ty"))
+    return out
+
+
 def fingerprint(n, depth=4):
     """A short, line-number-free description of an expression built from resolved callees,
     field names and local names."""
